@@ -73,9 +73,9 @@ inductive Op where
   | enter                        -- cm = validators.disabled(); cm.__enter__()
   | exit                         -- innermost open cm.__exit__(None, None, None)
   | exitExc                      -- innermost open cm.__exit__(type(e), e, tb)
-  | construct                    -- C(**values)
-  | assign (i : Nat)             -- inst.<field i> = value
-  | validate                     -- attr.validate(inst)
+  | construct (k : Nat)          -- K(**values) for class k of the hierarchy
+  | assign (k i : Nat)           -- inst_k.<field i> = value   (inst_k: an instance of class k)
+  | validate (k : Nat)           -- attr.validate(inst_k)
   deriving DecidableEq, Repr, FromJson, ToJson, Inhabited
 
 def Op.isEnter : Op → Bool
@@ -87,7 +87,9 @@ def Op.isExit : Op → Bool
   | _ => false
 
 structure Case where
-  cls : Cls
+  /-- the attrs classes of one hierarchy (base classes and subclasses that add or re-declare fields), each
+      with its resolved field list; reader operations name the class whose instance they work on -/
+  classes : List Cls
   /-- the callback that raises whenever it runs -/
   fault : Option EventId
   /-- validators enabled when the history starts -/
@@ -268,13 +270,19 @@ def stepObs (c : Case) (st st' : St) : Op → Step
   | .enter => mkStep st' none none []
   -- `__exit__` returns False: an exception passed in propagates
   | .exit | .exitExc => mkStep st' none (if st.stack.isEmpty then some .other else none) []
-  | .construct =>
-    let o := runInit (initCase c.cls st.run c.fault)
-    mkStep st' none o.exc (o.trace.map (·.id))
-  | .assign i => match c.cls.fields[i]? with
-    | some f => let r := runAssign c.cls st.run c.fault f; mkStep st' none r.exc r.events
+  | .construct k => match c.classes[k]? with
+    | some cls =>
+      let o := runInit (initCase cls st.run c.fault)
+      mkStep st' none o.exc (o.trace.map (·.id))
     | none => mkStep st' none (some .other) []
-  | .validate => let r := runValidate st.run c.fault c.cls.fields; mkStep st' none r.exc r.events
+  | .assign k i => match c.classes[k]? with
+    | some cls => (match cls.fields[i]? with
+      | some f => let r := runAssign cls st.run c.fault f; mkStep st' none r.exc r.events
+      | none => mkStep st' none (some .other) [])
+    | none => mkStep st' none (some .other) []
+  | .validate k => match c.classes[k]? with
+    | some cls => let r := runValidate st.run c.fault cls.fields; mkStep st' none r.exc r.events
+    | none => mkStep st' none (some .other) []
 
 /-- the observations of a history, for a given transition function of the switch -/
 def runOpsWith (stf : St → Op → St) (c : Case) : St → List Op → List Step
